@@ -77,10 +77,57 @@ SITES = [
         '{doubleretval=0.0;for(constauto&e:bases){constautofid=toIndexPartial(e.tag,space,value);constautoaid=toIndexPartial(e.actionTag,actions,action);retval+=e.values(fid,aid);}returnretval;}': None}),
     ('dirichletLogSpace', 'include/AIToolbox/Utils/Probability.hpp', r'void\s+sampleDirichletDistribution\s*\(\s*const\s+TIn\s*&\s*params\s*,\s*G\s*&\s*generator\s*,\s*TOut\s*&&\s*out\s*\)\s*\{', {
         '{assert(params.size()==out.size());doublesum=0.0;for(size_ti=0;i<static_cast<size_t>(params.size());++i){std::gamma_distribution<double>dist(params[i],1.0);out[i]=dist(generator);sum+=out[i];}out/=sum;}': False,
-        '{assert(params.size()==out.size());doublemax=-std::numeric_limits<double>::infinity();for(size_ti=0;i<static_cast<size_t>(params.size());++i){out[i]=sampleLogGammaDistribution(params[i],generator);max=std::max(max,out[i]);}doublesum=0.0;for(size_ti=0;i<static_cast<size_t>(params.size());++i){out[i]=std::exp(out[i]-max);sum+=out[i];}out/=sum;}': True}),
+        '{assert(params.size()==out.size());doublemax=-std::numeric_limits<double>::infinity();for(size_ti=0;i<static_cast<size_t>(params.size());++i){out[i]=sampleLogGammaDistribution(params[i],generator);max=std::max(max,out[i]);}doublesum=0.0;for(size_ti=0;i<static_cast<size_t>(params.size());++i){out[i]=std::exp(out[i]-max);sum+=out[i];}out/=sum;}': True,
+        '{assert(params.size()==out.size());doublesum=0.0;for(size_ti=0;i<static_cast<size_t>(params.size());++i){std::gamma_distribution<double>dist(params[i],1.0);out[i]=dist(generator);sum+=out[i];}if(sum==0.0){doublemax=-std::numeric_limits<double>::infinity();for(size_ti=0;i<static_cast<size_t>(params.size());++i){out[i]=sampleLogGammaDistribution(params[i],generator);max=std::max(max,out[i]);}for(size_ti=0;i<static_cast<size_t>(params.size());++i){out[i]=std::exp(out[i]-max);sum+=out[i];}}out/=sum;}': 'fallback'}),
     ('betaLogSpace', 'include/AIToolbox/Utils/Probability.hpp', r'double\s+sampleBetaDistribution\s*\(\s*double\s+a\s*,\s*double\s+b\s*,\s*G\s*&\s*generator\s*\)\s*\{', {
         '{std::gamma_distribution<double>dista(a,1.0);std::gamma_distribution<double>distb(b,1.0);constautoX=dista(generator);constautoY=distb(generator);returnX/(X+Y);}': False,
-        '{constautologX=sampleLogGammaDistribution(a,generator);constautologY=sampleLogGammaDistribution(b,generator);constautom=std::max(logX,logY);constautoX=std::exp(logX-m);constautoY=std::exp(logY-m);returnX/(X+Y);}': True}),
+        '{constautologX=sampleLogGammaDistribution(a,generator);constautologY=sampleLogGammaDistribution(b,generator);constautom=std::max(logX,logY);constautoX=std::exp(logX-m);constautoY=std::exp(logY-m);returnX/(X+Y);}': True,
+        '{std::gamma_distribution<double>dista(a,1.0);std::gamma_distribution<double>distb(b,1.0);autoX=dista(generator);autoY=distb(generator);if(X+Y==0.0){constautologX=sampleLogGammaDistribution(a,generator);constautologY=sampleLogGammaDistribution(b,generator);constautom=std::max(logX,logY);X=std::exp(logX-m);Y=std::exp(logY-m);}returnX/(X+Y);}': 'fallback'}),
+    # round 4: helpers one level down the call graph of the anchored code (a wrong helper breaks a sampler
+    # indirectly): tolerance comparisons, the matrix overloads of isProbability, index arithmetic, the Seeder
+    ('checkEqualSmall', 'include/AIToolbox/Utils/Core.hpp', r'inline\s+bool\s+checkEqualSmall\s*\(\s*const\s+double\s+a\s*,\s*const\s+double\s+b\s*\)\s*\{', {
+        '{return(std::fabs(a-b)<=equalToleranceSmall);}': None}),
+    ('checkDifferentSmall', 'include/AIToolbox/Utils/Core.hpp', r'inline\s+bool\s+checkDifferentSmall\s*\(\s*const\s+double\s+a\s*,\s*const\s+double\s+b\s*\)\s*\{', {
+        '{return!checkEqualSmall(a,b);}': None}),
+    ('isProbabilityTable2D', HPP, r'bool\s+isProbability\s*\(\s*const\s+size_t\s+rows\s*,\s*const\s+size_t\s+cols\s*,\s*const\s+T\s*&\s*in\s*\)\s*\{', {
+        '{for(size_trow=0;row<rows;++row)if(!isProbability(cols,in[row]))returnfalse;returntrue;}': None}),
+    ('isProbabilityTable3D', HPP, r'bool\s+isProbability\s*\(\s*const\s+size_t\s+depth\s*,\s*const\s+size_t\s+rows\s*,\s*const\s+size_t\s+cols\s*,\s*const\s+T\s*&\s*in\s*\)\s*\{', {
+        '{for(size_td=0;d<depth;++d)if(!isProbability(rows,cols,in[d]))returnfalse;returntrue;}': None}),
+    ('isProbabilityMatrix2D', CPP, r'bool\s+isProbability\s*\(\s*const\s+Matrix2D\s*&\s*in\s*\)\s*\{', {
+        '{for(size_trow=0;row<static_cast<size_t>(in.rows());++row)if(in.row(row).minCoeff()<0.0||checkDifferentSmall(in.row(row).sum(),1.0))returnfalse;returntrue;}': None}),
+    ('isProbabilityMatrix3D', CPP, r'bool\s+isProbability\s*\(\s*const\s+Matrix3D\s*&\s*in\s*\)\s*\{', {
+        '{for(constauto&m2:in)if(!isProbability(m2))returnfalse;returntrue;}': None}),
+    ('isProbabilitySparse2D', CPP, r'bool\s+isProbability\s*\(\s*const\s+SparseMatrix2D\s*&\s*in\s*\)\s*\{', {
+        '{for(intk=0;k<in.outerSize();++k)for(SparseMatrix2D::InnerIteratorit(in,k);it;++it)if(it.value()<0.0)returnfalse;for(size_trow=0;row<static_cast<size_t>(in.rows());++row)if(checkDifferentSmall(in.row(row).sum(),1.0))returnfalse;returntrue;}': None}),
+    ('isProbabilitySparse3D', CPP, r'bool\s+isProbability\s*\(\s*const\s+SparseMatrix3D\s*&\s*in\s*\)\s*\{', {
+        '{for(constauto&m2:in)if(!isProbability(m2))returnfalse;returntrue;}': None}),
+    ('toIndexPartial', 'src/Factored/Utils/Core.cpp', r'size_t\s+toIndexPartial\s*\(\s*const\s+PartialKeys\s*&\s*ids\s*,\s*const\s+Factors\s*&\s*space\s*,\s*const\s+Factors\s*&\s*f\s*\)\s*\{', {
+        '{size_tresult=0;size_tmultiplier=1;for(autoid:ids){result+=multiplier*f[id];multiplier*=space[id];}returnresult;}': None}),
+    ('factorSpacePartial', 'src/Factored/Utils/Core.cpp', r'size_t\s+factorSpacePartial\s*\(\s*const\s+PartialKeys\s*&\s*ids\s*,\s*const\s+Factors\s*&\s*space\s*\)\s*\{', {
+        '{size_tretval=1;for(constautoid:ids){if(std::numeric_limits<size_t>::max()/space[id]<retval)returnstd::numeric_limits<size_t>::max();retval*=space[id];}returnretval;}': None}),
+    ('seederGetSeed', 'src/Seeder.cpp', r'unsigned\s+Seeder::getSeed\s*\(\s*\)\s*\{', {
+        '{staticstd::uniform_int_distribution<unsigned>dist(0,std::numeric_limits<unsigned>::max());returndist(instance_.generator_);}': None}),
+    ('seederSetRootSeed', 'src/Seeder.cpp', r'void\s+Seeder::setRootSeed\s*\(\s*const\s+unsigned\s+seed\s*\)\s*\{', {
+        '{instance_.rootSeed_=seed;instance_.generator_.seed(instance_.rootSeed_);}': None}),
+    # round 4b: learned models, bandit models
+    ('mlSampleSR', 'include/AIToolbox/MDP/MaximumLikelihoodModel.hpp', r'MaximumLikelihoodModel<E>::sampleSR\s*\(\s*const\s+size_t\s+s\s*,\s*const\s+size_t\s+a\s*\)\s*const\s*\{', {
+        '{constsize_ts1=sampleProbability(S,transitions_[a].row(s),rand_);returnstd::make_tuple(s1,rewards_(s,a));}': None}),
+    ('sparseMlSampleSR', 'include/AIToolbox/MDP/SparseMaximumLikelihoodModel.hpp', r'SparseMaximumLikelihoodModel<E>::sampleSR\s*\(\s*const\s+size_t\s+s\s*,\s*const\s+size_t\s+a\s*\)\s*const\s*\{', {
+        '{constsize_ts1=sampleProbability(S,transitions_[a].row(s),rand_);returnstd::make_tuple(s1,rewards_.coeff(s,a));}': None}),
+    ('thompsonSampleSR', 'include/AIToolbox/MDP/ThompsonModel.hpp', r'ThompsonModel<E>::sampleSR\s*\(\s*const\s+size_t\s+s\s*,\s*const\s+size_t\s+a\s*\)\s*const\s*\{', {
+        '{constsize_ts1=sampleProbability(S,transitions_[a].row(s),rand_);returnstd::make_tuple(s1,rewards_(s,a));}': None}),
+    ('banditSampleR', 'include/AIToolbox/Bandit/Model.hpp', r'Model<Dist>::sampleR\s*\(\s*const\s+size_t\s+a\s*\)\s*const\s*\{', {
+        '{returnarms_[a](rand_);}': None}),
+    ('factoredBanditSampleR', 'include/AIToolbox/Factored/Bandit/Model.hpp', r'Model<Dist>::sampleR\s*\(\s*const\s+Action\s*&\s*a\s*\)\s*const\s*\{', {
+        '{for(size_ti=0;i<groups_.size();++i){constautoaid=toIndexPartial(groups_[i],A,a);rews_[i]=arms_[i].sampleR(aid);}returnrews_;}': None}),
+    ('flattenedBanditSampleR', 'include/AIToolbox/Factored/Bandit/FlattenedModel.hpp', r'FlattenedModel<Dist>::sampleR\s*\(\s*size_t\s+a\s*\)\s*const\s*\{', {
+        '{toFactors(model_.getA(),a,&helper_);returnmodel_.sampleR(helper_).sum();}': None}),
+    ('coopMlSampleSR', 'src/Factored/MDP/CooperativeMaximumLikelihoodModel.cpp', r'double\s+CooperativeMaximumLikelihoodModel::sampleSR\s*\(\s*const\s+State\s*&\s*s\s*,\s*const\s+Action\s*&\s*a\s*,\s*State\s*\*\s*s1p\s*\)\s*const\s*\{', {
+        '{assert(s1p);constauto&S=experience_.getS();auto&tProbs=transitions_.transitions;State&s1=*s1p;for(size_ti=0;i<S.size();++i){constautoj=experience_.getGraph().getId(i,s,a);s1[i]=sampleProbability(S[i],tProbs[i].row(j),rand_);}returngetExpectedReward(s,a,s1);}': None}),
+    ('coopMlSampleSRs', 'src/Factored/MDP/CooperativeMaximumLikelihoodModel.cpp', r'void\s+CooperativeMaximumLikelihoodModel::sampleSRs\s*\(\s*const\s+State\s*&\s*s\s*,\s*const\s+Action\s*&\s*a\s*,\s*State\s*\*\s*s1p\s*,\s*Rewards\s*\*\s*rews\s*\)\s*const\s*\{', {
+        '{assert(s1p);assert(rews);constauto&S=experience_.getS();auto&tProbs=transitions_.transitions;State&s1=*s1p;for(size_ti=0;i<S.size();++i){constautoj=experience_.getGraph().getId(i,s,a);s1[i]=sampleProbability(S[i],tProbs[i].row(j),rand_);}getExpectedRewards(s,a,s1,rews);}': None}),
+    ('toFactors', 'src/Factored/Utils/Core.cpp', r'void\s+toFactors\s*\(\s*const\s+Factors\s*&\s*space\s*,\s*size_t\s+id\s*,\s*Factors\s*\*\s*out\s*\)\s*\{', {
+        '{assert(out);auto&f=*out;for(size_ti=0;i<space.size();++i){f[i]=id%space[i];id/=space[i];}}': None}),
 ]
 
 # the member initialisers of the Vose constructor belong to the modelled form as well
@@ -113,7 +160,7 @@ def gen_c08_variant():
     # fixes/C08-6: when Dirichlet/Beta use the log-space helper, the helper must be the form the harness replays
     vals = {n: v for n, v, _r, _l in rows}
     if vals.get('dirichletLogSpace') != vals.get('betaLogSpace'):
-        errs.append('sampleDirichletDistribution and sampleBetaDistribution are in different (plain / log-space) forms')
+        errs.append('sampleDirichletDistribution and sampleBetaDistribution are in different (plain / log-space / fallback) forms')
     elif vals.get('dirichletLogSpace'):
         try:
             hb, _ = _body(srcs[HPP], r'double\s+sampleLogGammaDistribution\s*\(\s*const\s+double\s+shape\s*,\s*G\s*&\s*generator\s*\)\s*\{', 'sampleLogGammaDistribution')
@@ -134,9 +181,113 @@ def gen_c08_variant():
         if val is None:
             out.append(f'def {nm}Modelled : Bool := true')
         else:
-            out.append(f'def {nm} : Bool := {"true" if val else "false"}')
+            out.append(f'def {nm} : Bool := {"true" if val is True else "false"}')
+            if nm in ('dirichletLogSpace', 'betaLogSpace'):
+                out.append('/-- fixes/C08-8: plain gamma draws, log-space redraw only when every draw underflowed to 0 -/')
+                out.append(f'def {nm.replace("LogSpace", "UnderflowFallback")} : Bool := {"true" if val == "fallback" else "false"}')
     out += ['', 'end AITB.Gen.C08', '']
     E.write_if_changed('C08Variant', '\n'.join(out))
 
 
-GENERATORS = [gen_c08_variant]
+# round 4: every constructor of a sampling model object must seed its engine from the Seeder (`rand_(Seeder::getSeed())`);
+# the copy constructor of CooperativeModel copies the engine.  Constructors that do not are exported by name: the
+# two NO_CHECK constructors of the POMDP models are an open finding (fixes/C08-7); any other one is a broken tie.
+CTOR_FILES = [
+    ('include/AIToolbox/MDP/Model.hpp', r'\bModel::Model\s*\('), ('src/MDP/Model.cpp', r'\bModel::Model\s*\('),
+    ('include/AIToolbox/MDP/SparseModel.hpp', r'\bSparseModel::SparseModel\s*\('), ('src/MDP/SparseModel.cpp', r'\bSparseModel::SparseModel\s*\('),
+    ('include/AIToolbox/POMDP/Model.hpp', r'\bModel<M>::Model\s*\('), ('include/AIToolbox/POMDP/SparseModel.hpp', r'\bSparseModel<M>::SparseModel\s*\('),
+    ('src/Factored/MDP/CooperativeModel.cpp', r'\bCooperativeModel::CooperativeModel\s*\('),
+    ('include/AIToolbox/MDP/MaximumLikelihoodModel.hpp', r'\bMaximumLikelihoodModel<E>::MaximumLikelihoodModel\s*\('),
+    ('include/AIToolbox/MDP/SparseMaximumLikelihoodModel.hpp', r'\bSparseMaximumLikelihoodModel<E>::SparseMaximumLikelihoodModel\s*\('),
+    ('include/AIToolbox/MDP/ThompsonModel.hpp', r'\bThompsonModel<E>::ThompsonModel\s*\('),
+    ('include/AIToolbox/Bandit/Model.hpp', r'\bModel<Dist>::Model\s*\('),
+    ('src/Factored/MDP/CooperativeMaximumLikelihoodModel.cpp', r'\bCooperativeMaximumLikelihoodModel::CooperativeMaximumLikelihoodModel\s*\('),
+    ('src/Factored/MDP/CooperativeThompsonModel.cpp', r'\bCooperativeThompsonModel::CooperativeThompsonModel\s*\('),
+]
+CTOR_EXPECTED = 25
+KNOWN_UNSEEDED = {'include/AIToolbox/POMDP/Model.hpp:Model<M>::Model(NoCheck,size_to,ObservationMatrix&&ot,Args&&...params)',
+                  'include/AIToolbox/POMDP/SparseModel.hpp:SparseModel<M>::SparseModel(NoCheck,size_to,ObservationMatrix&&ot,Args&&...params)'}
+# fixes/C08-9: the two learned factored models never seed their engine either
+KNOWN_UNSEEDED_FACTORED = {'src/Factored/MDP/CooperativeMaximumLikelihoodModel.cpp:CooperativeMaximumLikelihoodModel::CooperativeMaximumLikelihoodModel(constCooperativeExperience&exp,constdoublediscount,constbooltoSync)',
+                           'src/Factored/MDP/CooperativeThompsonModel.cpp:CooperativeThompsonModel::CooperativeThompsonModel(constCooperativeExperience&exp,constdoublediscount)'}
+
+
+def _ctors(src, pat):
+    """(signature, member-initialiser text) of every constructor definition matching pat"""
+    out = []
+    for m in re.finditer(pat, src):
+        i, depth = m.end() - 1, 0
+        while True:                       # closing parenthesis of the parameter list
+            if src[i] == '(':
+                depth += 1
+            elif src[i] == ')':
+                depth -= 1
+                if depth == 0:
+                    break
+            i += 1
+        j = i + 1
+        while src[j].isspace():
+            j += 1
+        if src[j] != ':':                 # a declaration or a delegating use, not a definition with initialisers
+            if src[j] == '{':
+                out.append((_norm(src[m.start():i + 1]), ''))
+            continue
+        depth, k = 0, j
+        while not (src[k] == '{' and depth == 0 and src[k - 1] != '_' and _norm(src[j:k]).endswith(')')):
+            if src[k] == '(':
+                depth += 1
+            elif src[k] == ')':
+                depth -= 1
+            k += 1
+        out.append((_norm(src[m.start():i + 1]), _norm(src[j:k])))
+    return out
+
+
+def gen_c08_engines():
+    seeded, unseeded, copied = [], [], []
+    for rel, pat in CTOR_FILES:
+        src = E.strip_comments(E.read(rel))
+        for sig, init in _ctors(src, pat):
+            name = rel + ':' + sig
+            if 'rand_(Seeder::getSeed())' in init or 'rand_(AIToolbox::Seeder::getSeed())' in init:
+                seeded.append(name)
+            elif 'rand_(other.rand_)' in init:
+                copied.append(name)
+            else:
+                unseeded.append(name)
+    errs = []
+    if len(seeded) + len(unseeded) + len(copied) != CTOR_EXPECTED:
+        errs.append(f'expected {CTOR_EXPECTED} constructor definitions of the sampling model classes, found {len(seeded) + len(unseeded) + len(copied)}')
+    extra = [u for u in unseeded if u not in KNOWN_UNSEEDED and u not in KNOWN_UNSEEDED_FACTORED]
+    if extra:
+        errs.append('constructor does not seed rand_ from Seeder::getSeed(): ' + '; '.join(extra))
+    if len(copied) != 1:
+        errs.append('exactly the CooperativeModel copy constructor is expected to copy the engine: ' + '; '.join(copied))
+    # the engine type every mirror in the harness assumes, and the tolerance the property's quantifier names
+    if not re.search(r'using\s+RandomEngine\s*=\s*std::mt19937\s*;', E.strip_comments(E.read('include/AIToolbox/Types.hpp'))):
+        errs.append('RandomEngine is no longer std::mt19937')
+    # storage order: the dense scan indexes a row of a row-major matrix; the sparse theorems assume the stored columns of a row ascend
+    types = _norm(E.strip_comments(E.read('include/AIToolbox/Types.hpp')))
+    if 'usingMatrix2D=Eigen::Matrix<double,Eigen::Dynamic,Eigen::Dynamic,Eigen::RowMajor|Eigen::AutoAlign>;' not in types:
+        errs.append('Matrix2D is no longer a row-major dynamic double matrix')
+    if 'usingSparseMatrix2D=Eigen::SparseMatrix<double,Eigen::RowMajor>;' not in types:
+        errs.append('SparseMatrix2D is no longer a row-major sparse double matrix')
+    m = re.search(r'constexpr\s+auto\s+equalToleranceSmall\s*=\s*([0-9.eE+-]+)\s*;', E.strip_comments(E.read('include/AIToolbox/Utils/Core.hpp')))
+    if not m or float(m.group(1)) != 1e-6:
+        errs.append('equalToleranceSmall is not 1e-6 (the property quantifies over row sums in [1-1e-6, 1+1e-6])')
+    if errs:
+        raise E.ExtractError('; '.join(errs))
+    pomdp_seeded = not [u for u in unseeded if u in KNOWN_UNSEEDED]
+    factored_seeded = not [u for u in unseeded if u in KNOWN_UNSEEDED_FACTORED]
+    out = ['/- GENERATED by tools/extract_c08.py from the library source — do not edit. -/', 'namespace AITB.Gen.C08', '',
+           f'/-- constructors of MDP::Model, MDP::SparseModel, POMDP::Model, POMDP::SparseModel, CooperativeModel whose member initialisers contain `rand_(Seeder::getSeed())` -/',
+           f'def ctorsSeeded : Nat := {len(seeded)}',
+           '/-- do the NO_CHECK constructors of POMDP::Model / POMDP::SparseModel seed their engine (fixes/C08-7)? -/',
+           f'def pomdpNoCheckSeeded : Bool := {"true" if pomdp_seeded else "false"}',
+           '/-- do CooperativeMaximumLikelihoodModel / CooperativeThompsonModel seed their engine (fixes/C08-9)? -/',
+           f'def factoredLearnedSeeded : Bool := {"true" if factored_seeded else "false"}',
+           '', 'end AITB.Gen.C08', '']
+    E.write_if_changed('C08Engines', '\n'.join(out))
+
+
+GENERATORS = [gen_c08_variant, gen_c08_engines]
